@@ -92,6 +92,8 @@ impl Database {
     /// Run SQL queries and return the outputs.
     pub async fn run(&self, sql: &str) -> Result<Vec<Chunk>, Error> {
         let _root = Span::root("run_sql", SpanContext::random());
+        #[cfg(feature = "verif")]
+        crate::verif::point("run.begin").await;
 
         let sql = if let Some(cmd) = sql.trim().strip_prefix('\\') {
             self.command_to_sql(cmd)?
